@@ -1,12 +1,17 @@
 #!/usr/bin/env python3
 """Operation generator for engine `bindings` (C16).  All randomness from --seed.
 
-A history = `new pen|term`, behaviour tables (`beh h n ret actions…`), then bind / unbind / emit / destroy
+A history = `new pen|term|twin|win`, behaviour tables (`beh h n ret actions…`), then bind / unbind / emit / destroy
 operations.  Histories are structured: mostly valid slots and events of the owner, all 16 flag
 combinations, behaviours biased towards the interleavings the property names (unbind of a later
 handler from an earlier one, self-unbind, one-shot re-entered, bind while iterating, unbind from an
 unbind notification).  Destroying the owner from inside a handler is not generated (the code does not
 support it: corpus/C16 has the probe).
+
+`twin` is a terminal on which root windows come and go (window.c binds three handlers on the terminal and unbinds them by the
+identifiers it kept: rootnew / rootref / rootclose / rootunref between the application's binds, unbinds and emissions); `win` is
+the root window itself as the owner of the bindings (GEOMCHANGE, EXPOSE, FOCUS through run_events; KEY and MOUSE through the
+terminal, window.c's handlers on it and run_events_whilefalse).
 
 --tier exhaustive: every history over a tiny alphabet (see `exhaustive()`).
 """
@@ -21,7 +26,14 @@ rng = random.Random(a.seed * 7919 + 16)
 stats = collections.Counter()
 lines = []
 
-EVENTS = {"pen": [1], "term": [1, 2, 3]}
+EVENTS = {"pen": [1], "term": [1, 2, 3], "twin": [1, 2, 3], "win": [1, 2, 3, 4, 5]}
+WF_EVENTS = {"pen": [], "term": [2, 3], "twin": [2, 3], "win": [4, 5]}     # delivered by run_events_whilefalse
+OWNERS = ["pen", "term", "twin", "win"]
+OWNER_W = [0.3, 0.25, 0.25, 0.2]
+
+
+def pick_owner():
+    return rng.choices(OWNERS, OWNER_W)[0]
 
 
 def pick_event(owner, for_bind):
@@ -49,7 +61,8 @@ def pick_flags():
     return f
 
 
-PEN_CODES = ["b0", "b1", "c2", "c3", "k00", "k01", "k10", "k11", "k20", "k21", "k30", "k31", "k41", "a2", "a4", "a3", "d3", "d5", "D3", "D5"]
+PEN_CODES = ["b0", "b1", "c2", "c3", "k00", "k01", "k10", "k11", "k20", "k21", "k30", "k31", "k41", "a2", "a4", "a3", "d3", "d5", "D3", "D5",
+             "h3", "h7", "h8", "h12", "n0", "n1", "n2", "n3", "n4", "n5"]
 
 
 def pen_code():
@@ -73,7 +86,7 @@ def gen_action(owner, nh, maxslot, style, penops=False):
     else:
         w = [0.25, 0.25, 0.15, 0.35]
     k = rng.choices(["b", "u", "us", "e"], w)[0]
-    if rng.random() < 0.02 and not penops:
+    if rng.random() < 0.02 and not penops and owner in ("pen", "term"):
         k = "d"                      # drop the handlers' reference to the owner (the interpreter does it once)
     stats["act_" + k] += 1
     if k == "d":
@@ -87,8 +100,24 @@ def gen_action(owner, nh, maxslot, style, penops=False):
     return "e:%d" % pick_event(owner, False)
 
 
+def root_op(st):
+    """A root-window operation of the `twin` configuration, biased to what is possible: st = [references held, closed]."""
+    if st[0] == 0:
+        op = "rootnew" if rng.random() < 0.85 else rng.choice(["rootref", "rootclose", "rootunref"])
+    else:
+        op = rng.choices(["rootref", "rootclose", "rootunref", "rootnew"], [0.25, 0.25, 0.45, 0.05])[0]
+    if op == "rootnew" and st[0] == 0:
+        st[0], st[1] = 1, 0
+    elif op == "rootref" and st[0]:
+        st[0] += 1
+    elif op == "rootunref" and st[0]:
+        st[0] -= 1
+    stats["op_" + op] += 1
+    return op
+
+
 def history(kind):
-    owner = rng.choice(["pen", "term"])
+    owner = pick_owner()
     stats["owner_" + owner] += 1
     stats["kind_" + kind] += 1
     out = ["new " + owner]
@@ -106,7 +135,7 @@ def history(kind):
                 if rng.random() < 0.25:
                     continue              # this invocation does nothing
                 nact = rng.choice([0, 1, 1, 1, 2, 2, 3])
-                ret = 1 if (owner == "term" and rng.random() < 0.2) else 0
+                ret = 1 if (WF_EVENTS[owner] and rng.random() < 0.2) else 0
                 acts = [gen_action(owner, nh, 6, style, penops) for _ in range(nact)]
                 behs.append("beh %d %d %d %s" % (h, n, ret, " ".join(acts)))
                 stats["beh_lines"] += 1
@@ -115,9 +144,21 @@ def history(kind):
         out += behs
         behs = []
     nb = 0
+    rootst = [0, 0]
     for i in range(nops):
         if behs and rng.random() < 0.3:
             out.append(behs.pop(0))
+        if owner == "twin" and rng.random() < (0.5 if i == 0 else 0.22):
+            if rootst[0] == 0 and "rootnew" in out:
+                pass
+            op = root_op(rootst)
+            out.append(op)
+            if op == "rootnew":
+                nb += 3                   # the three slots window.c's bindings take
+            continue
+        if owner == "win" and rng.random() < 0.04:
+            out.append("rootclose"); stats["op_rootclose"] += 1      # the owner window is closed: its bindings stay
+            continue
         r = rng.random()
         if nb == 0 or r < 0.40:
             out.append("bind %d %d %d" % (pick_event(owner, True), pick_flags(), rng.randrange(nh)))
@@ -131,7 +172,8 @@ def history(kind):
             # mostly existing slots (slots created inside handlers are beyond nb: allow a margin)
             out.append("unbind %d" % rng.randrange(0, nb + 3)); stats["op_unbind"] += 1
         elif r < 0.96:
-            out.append("unbindid %d" % rng.choice([0, 1, 2, 3, 5, 99])); stats["op_unbindid"] += 1
+            # (twin: the identifiers window.c holds are not the application's to unbind)
+            out.append("unbindid %d" % rng.choice([0, 99] if owner == "twin" else [0, 1, 2, 3, 5, 99])); stats["op_unbindid"] += 1
         else:
             out.append("destroy"); stats["op_destroy"] += 1
             break
@@ -141,9 +183,50 @@ def history(kind):
     return out
 
 
+def root_scenario():
+    """A root window's life on a terminal (twin), interleaved with the application's own bindings on that terminal: created
+    before / between / after the application's binds, referenced more than once, closed while still referenced, released in
+    steps, re-created; key, mouse and resize events between every two steps; unbinds of the application's own slots."""
+    stats["root_scenario"] += 1
+    stats["owner_twin"] += 1
+    o = ["new twin"]
+    nh = rng.randint(1, 3)
+    f = lambda: rng.choice([0, 0, 2, 2, 4, 6, 8, 10, 1, 3])
+    ev = lambda: rng.choice([1, 2, 2, 2, 3])
+    if rng.random() < 0.4:
+        act = rng.choice(["us", "u:%d" % rng.randrange(6), "b:%d:%d:%d" % (ev(), f(), rng.randrange(nh)), "e:%d" % ev()])
+        o.append("beh %d %d %d %s" % (rng.randrange(nh), rng.randrange(2), rng.choice([0, 0, 1]), act))
+    slots = []            # the application's slots
+    nslots = 0
+    rootst = [0, 0]
+    steps = rng.randint(6, 16)
+    for i in range(steps):
+        r = rng.random()
+        if r < 0.38:
+            op = root_op(rootst)
+            o.append(op)
+            if op == "rootnew" and rootst[0] == 1 and o.count("rootnew") >= 1:
+                pass
+        elif r < 0.62:
+            o.append("bind %d %d %d" % (ev(), f(), rng.randrange(nh))); stats["op_bind"] += 1
+        elif r < 0.88:
+            o.append("emit %d" % ev()); stats["op_emit"] += 1
+        else:
+            o.append("unbind %d" % rng.randrange(0, 8)); stats["op_unbind"] += 1
+    # let whatever is left of the root window go step by step, with events in between
+    while rootst[0] > 0 and rng.random() < 0.8:
+        o.append("rootunref"); rootst[0] -= 1; stats["op_rootunref"] += 1
+        if rng.random() < 0.5:
+            o.append("emit %d" % ev()); stats["op_emit"] += 1
+    o.append("emit 2"); o.append("emit %d" % ev())
+    if rng.random() < 0.8:
+        o.append("destroy")
+    return o
+
+
 def scenario():
     """Hand-shaped families around the interleavings the property text names, with random fill."""
-    owner = rng.choice(["pen", "term"])
+    owner = pick_owner()
     ev = rng.choice(EVENTS[owner])
     fam = rng.randrange(10)
     stats["scenario_%d" % fam] += 1
@@ -169,8 +252,8 @@ def scenario():
     elif fam == 2:    # one-shot and re-entrant emission
         o += ["beh 0 0 0 e:%d" % ev, "bind %d %d 0" % (ev, f()), "bind %d %d 1" % (ev, 8 | f()), "bind %d %d 2" % (ev, f()), "emit %d" % ev, "emit %d" % ev]
     elif fam == 3:    # one-shot that re-emits its own event from its first invocation (mostly on the run_event path)
-        if owner == "term" and rng.random() < 0.7:
-            ev = 1
+        if owner != "pen" and rng.random() < 0.7:
+            ev = rng.choice([e for e in EVENTS[owner] if e not in WF_EVENTS[owner]])
         extra = rng.choice(["", " e:%d" % ev, " b:%d:%d:1" % (ev, f()), " us"])
         o += ["beh 0 0 0 e:%d%s" % (ev, extra), "bind %d %d 0" % (ev, 8 | f()), "bind %d %d 1" % (ev, f()), "emit %d" % ev, "emit %d" % ev]
     elif fam == 4:    # bind (first / last) while iterating
@@ -180,7 +263,9 @@ def scenario():
         o += ["beh 0 0 0 %s" % act, "bind %d %d 1" % (ev, f()), "bind %d %d 0" % (ev, 2 | f()), "bind %d %d 1" % (ev, rng.choice([0, 8]) | f()),
               "unbind 1", "emit %d" % ev]
     elif fam == 6:    # claim / decline chains on key events, one-shot among them
-        owner = "term"; o[0] = "new term"; ev = rng.choice([2, 3])
+        if owner == "pen":
+            owner = "term"; o[0] = "new term"
+        ev = rng.choice(WF_EVENTS[owner])
         o += ["beh 1 %d 1" % rng.randrange(3), "bind %d %d 0" % (ev, rng.choice([0, 8])), "bind %d %d 1" % (ev, rng.choice([0, 8, 1])), "bind %d 0 2" % ev,
               "emit %d" % ev, "emit %d" % ev, "emit %d" % ev]
     else:             # destroy with every kind of asker
@@ -189,6 +274,11 @@ def scenario():
     # random perturbation: drop or duplicate one line
     if len(o) > 3 and rng.random() < 0.3:
         i = rng.randrange(1, len(o)); o.insert(i, o[i])
+    if owner == "twin" and rng.random() < 0.5:
+        # a root window comes at the very end of the binds and goes before the last emission: slot numbers stay as written
+        last_bind = max(i for i, l in enumerate(o) if l.startswith("bind "))
+        o.insert(last_bind + 1, "rootnew")
+        o.insert(rng.randrange(last_bind + 2, len(o) + 1), "rootunref")
     if rng.random() < 0.8:
         o.append("destroy")
     return o
@@ -258,9 +348,43 @@ def exhaustive():
                             h.append(("beh 0 0 %d " % ret + " ".join(beh)).rstrip())
                         h += ["bind 2 %d 0" % f1, "bind 2 %d 1" % f2, op, "emit 2", "emit 2", "destroy"]
                         lines.extend(h); n += 1
+    # a root window's life on a terminal (window.c binding and unbinding its three handlers by identifier) against the
+    # application's own bindings: every sequence of up to 5 steps over
+    #   rootnew, rootref, rootclose, rootunref, bind key (wants unbind notification), bind key (plain, handler 1),
+    #   emit key, unbind of the application's first slot
+    # that creates a root window; then a key event and the destruction of the terminal.
+    syms = ["rootnew", "rootref", "rootclose", "rootunref", "bindU", "bindP", "emit 2", "unbindA"]
+    for ln in range(1, 6):
+        for seq in itertools.product(syms, repeat=ln):
+            if "rootnew" not in seq:
+                continue
+            h = ["new twin"]
+            nslots, refs, first_app = 0, 0, None
+            for x in seq:
+                if x == "rootnew":
+                    if refs == 0:
+                        refs = 1; nslots += 3
+                    h.append(x)
+                elif x == "rootref":
+                    refs += 1 if refs else 0; h.append(x)
+                elif x == "rootunref":
+                    refs -= 1 if refs else 0; h.append(x)
+                elif x in ("bindU", "bindP"):
+                    if first_app is None:
+                        first_app = nslots
+                    nslots += 1
+                    h.append("bind 2 2 0" if x == "bindU" else "bind 2 0 1")
+                elif x == "unbindA":
+                    h.append("unbind %d" % (first_app if first_app is not None else nslots))
+                else:
+                    h.append(x)
+            h += ["emit 2", "destroy"]
+            lines.extend(h); n += 1
     stats["exhaustive_histories"] = n
     return ("handler 0 with <=2 actions out of 7 at its first invocation x 16 flag sets (binding 0) x 4 (binding 1) x optional third binding "
-            "x 3 operations on a pen (run_event); the same with claim/decline x 16 x 4 x 3 operations on a terminal's key event (run_event_whilefalse)")
+            "x 3 operations on a pen (run_event); the same with claim/decline x 16 x 4 x 3 operations on a terminal's key event (run_event_whilefalse); "
+            "every sequence of <=5 steps over {rootnew, rootref, rootclose, rootunref, bind key wanting unbind, bind key plain, emit key, unbind first "
+            "application slot} containing a rootnew, on a terminal, followed by a key event and destroy")
 
 
 bound = None
@@ -274,7 +398,10 @@ else:
         if r < 0.04:
             tail_histories.append(destroy_scenario())   # kept together at the end: on a tree without the emitter
             continue                                    # references they abort their batch of 64 histories
-        elif r < 0.15:
+        elif r < 0.12:
+            head_histories.append(root_scenario())
+            continue
+        elif r < 0.20:
             h = history("linear")
         elif r < 0.75:
             h = history("reentrant")
